@@ -296,7 +296,7 @@ func genHistory(c *core.Chooser, prop string, tid int, maxOps int) []hop {
 	ops := make([]hop, 0, n)
 	for i := 0; i < n; i++ {
 		var o hop
-		weights := []int{5, 4, 2, 2, 1, 2, 1, 0, 2, 1, 1, 1, 2, 2, 2}
+		weights := []int{5, 4, 2, 2, 1, 2, 1, 1, 2, 1, 1, 1, 2, 2, 2}
 		if prop == "C13" {
 			weights[7] = 2
 		}
@@ -368,6 +368,7 @@ func genHistory(c *core.Chooser, prop string, tid int, maxOps int) []hop {
 			o.smpp = c.Bool()
 			o.text = genSMSText(c, famGSM7U, 20+c.Intn(300), nil2run)
 			o.ref = byte(tid) // unique per in-flight Build: keeps adopted workers distinguishable
+			o.coding = c.Intn(3) // 0 a fresh builder; 1, 2: the task's own builder value, used again and again
 		}
 		ops = append(ops, o)
 	}
@@ -388,6 +389,7 @@ type taskState struct {
 	cd    codec.Codec
 	done  bool
 	kept  map[string]protocol.PDU // values the task decodes into again and again
+	builder *protocol.BatchDataCodingEncoder // the task's own builder value
 	// blocked: the task reads its connection through the blocking extractor, whose frames belong to the caller
 	blocked bool
 }
@@ -717,7 +719,33 @@ func execOp(r *core.Run, t *taskState, o hop) (live any, label string, panicked 
 			} else {
 				dcs = []datacoding.ProtocolDataCoding{datacoding.CMPP_CODING_ASCII, datacoding.CMPP_CODING_UCS2, datacoding.CMPP_CODING_GBK}
 			}
-			parts, coding, err := protocol.NewBatchDataCodingEncoder().Protocol(pr).Content(o.text, o.ref).DataCodings(dcs).Build(ctx)
+			b := protocol.NewBatchDataCodingEncoder()
+			if o.coding > 0 {
+				if t.builder == nil {
+					t.builder = protocol.NewBatchDataCodingEncoder()
+				}
+				b = t.builder
+			}
+			b.Protocol(pr).DataCodings(dcs)
+			if o.coding == 1 {
+				// the same text was built under another reference just before
+				_, _, _ = b.Content(o.text, o.ref^0x80).Build(ctx)
+			}
+			parts, coding, err := b.Content(o.text, o.ref).Build(ctx)
+			if err == nil && o.coding == 2 {
+				// the caller overwrites what it was given and builds again without touching the builder: the same
+				// request must give the same octets again
+				first := snapshot(parts).([][]byte)
+				for _, p := range parts {
+					for i := range p {
+						p[i] = 0xC3
+					}
+				}
+				parts, coding, err = b.Build(ctx)
+				if ok, what := sameValue(first, parts); err == nil && !ok && r.Cfg.Property != "" {
+					r.Fail(r.Cfg.Property, "result-changed-later", label, "rebuild/"+what, "task %d: Build on the same builder gave other octets after the caller had overwritten the first result", t.id)
+				}
+			}
 			if err != nil {
 				live = "build error"
 				return
